@@ -168,17 +168,19 @@ def e4(test, rule, quick, thorough):
                 crash_is_violation=True, vlimit_kb=8 * 1024 * 1024, min_evaluations=dict(quick=quick, thorough=thorough * 16))
 
 
-KQ_RULE = ("cases drawn by rapid (GenK): watched directories d0 (spelled d0, ./d0/ or through the symlink ld0) and d1 with 0-6 pre-existing entries, 3-25 ops from create/write/chmod/truncate/unlink/"
-           "mkdir/rmdir/rename (plain, overwrite, in, out, between watched dirs)/rm -r/rename or removal of a whole watched directory/Add/Remove, 30% of segments as held bursts of 2-8 ops, ending in remove-all and/or Close; ")
+KQ_RULE = ("cases drawn by rapid (GenK): watched directories d0 (spelled d0, ./d0/ or through the symlink ld0) and d1 with 0-6 pre-existing entries (15%: an entry of d1 is added by the user before d1 itself; 25%: a subdirectory of d0 is added as well), "
+           "3-25 ops from create/write/chmod (files, and the watched directories themselves)/truncate/unlink (20%: the name re-created at once as file or directory)/"
+           "mkdir/rmdir/rename (plain, overwrite, in, out, between watched dirs)/rm -r/rename or removal of a whole watched directory/Add/Remove/remove-change-add again, 30% of segments as held bursts of 2-8 ops, ending in remove-all and/or Close; "
+           "every API call runs under a watchdog: a call blocked for good, a backend that never finishes handling what was raised, or a reader that sleeps in kevent() for ever after Close is a finding with goroutine-dump proof; ")
 PROPS["C17"] = e4("TestC17", KQ_RULE + "C17 adds FIFOs and symlinks (to a file, to a directory) as directory contents. Oracle at every quiescent point: descriptors opened and not closed through the simulated syscall layer == descriptors in the watch table; "
                   "no internal watch whose directory is no longer watched; WatchList within the user's paths; after remove-all: no vnode descriptor, no knote, all tables empty; after Close and reader exit: no descriptor at all. "
-                  "non-trivial = >=1 Add and >=1 watch-ending filesystem op; distinct = case text", 300, 1500)
+                  "non-trivial = >=1 Add and >=1 watch-ending filesystem op; distinct = case text", 1000, 3000)
 MANIFEST_TEXT["C17"] = dict(engine="E4", level_text="Exploration relative to the simulator: every descriptor opened through the simulated open(2) is tracked until close(2); tables and descriptors are compared after every quiescent point, after remove-all and after Close.",
                             note="trusted: the simulated kqueue (knotes per (kq, ident, filter), EV_CLEAR accumulation, FIFO activation order, knote removal on close, EVFILT_READ on the close pipe) and the NOTE_* raising layer, validated against the recorded kqueue expectations of the repository's 39 applicable testdata scripts",
                             technique="property-based testing (rapid) of the kqueue backend on a simulated kernel with resource-accounting oracle")
 PROPS["C18"] = e4("TestC18", KQ_RULE + "Oracle: quiescent segments - per-op specification table (create->Create, write->Write, chmod/truncate->Chmod, unlink/rmdir->Remove, rename->Rename old + Create new (+ Remove of an overwritten entry), "
                   "rm -r of a watched dir -> Remove for it and each watched entry, unwatched places -> nothing), names under the user's spelling; held bursts - exactly one Create per entry that is new (or has a new inode) at the next quiescent point, none otherwise; "
-                  "whole history - per name, Create only after Remove/Rename; nothing on Errors; the 39 testdata scripts reproduce their recorded expectations. non-trivial = >=5 events delivered; distinct = case text", 300, 1500)
+                  "whole history - per name, Create only after Remove/Rename; nothing on Errors; the 39 testdata scripts reproduce their recorded expectations. non-trivial = >=5 events delivered; distinct = case text", 1000, 3000)
 MANIFEST_TEXT["C18"] = dict(engine="E4", level_text="Exploration relative to the simulator: exact per-operation event table in quiescent mode, Create-count and alternation invariants in bursts, plus reproduction of the repository's recorded kqueue expectations on every run.",
                             note="trusted: as C17; the specification table in harness/kq/hist_test.go is written from the property statement and the recorded expectations",
                             technique="property-based testing (rapid) of the kqueue backend on a simulated kernel with per-operation specification-table oracle")
